@@ -8,6 +8,7 @@ if "C04" == "C08":
 HARNESSES["wrongtype"] = cc.WRONGTYPE_HARNESS
 HARNESSES["constant"] = cp.CONSTANT_HARNESS
 HARNESSES["badselector"] = cp.BADSELECTOR_HARNESS
+HARNESSES["unknownnested"] = cp.UNKNOWNNESTED_HARNESS
 STUBS = cc.STUBS
 
 
@@ -15,7 +16,12 @@ def configs(tier, seed):
     return cc.configs_for("C04", tier, seed) + cp.configs_for("C04", tier, seed) + cc.wrongtype_configs() + \
         [dict(c, prop="C04") for c in cp.configs_for("C08", tier, seed) if c["harness"] == "constant"] + \
         [{"id": f"badselector/{n}", "harness": "badselector", "what": "request", "name": n,
-          "prop": "C04", "build": {"what": "request", "name": n}} for n in cp.BAD_SELECTORS]
+          "prop": "C04", "build": {"what": "request", "name": n}} for n in cp.BAD_SELECTORS] + \
+        [{"id": f"unknownnested/{n}/{dtc}", "harness": "unknownnested", "what": "request", "name": n,
+          "prop": "C04", "dtc": dtc, "shape": cp.shapes(cp.COMPOSITES[n])[-1],
+          "build": {"what": "request", "name": n}}
+         for n, path in cp.UNKNOWN_NESTED.items() if path
+         for dtc in ((7, 1) if n == "env-data-then-structure" else (0,))]
 
 
 BOUNDS = {"atoms": "bit length in {1,2,7,8,9,12,15,16,17,24,31,32,33,63,64} x bit position 0..7 x "
